@@ -19,7 +19,8 @@ Record cfg : Type := {
   f2_honour_diags : bool;     (* F2: lib.rs rejects when lexer/parser reported a diagnostic *)
   f3_cr_newline : bool        (* F3: a bare CR is a Newline token (RFC 8259 whitespace) *)
 }.
-Definition cfg_now : cfg := {| f2_honour_diags := false; f3_cr_newline := false |}.
+(* the code as it is now: fixes 55cd6d2 (F2, honour diagnostics) and c07047e (F3, bare CR) applied *)
+Definition cfg_now : cfg := {| f2_honour_diags := true; f3_cr_newline := true |}.
 Definition cfg_fixed : cfg := {| f2_honour_diags := true; f3_cr_newline := true |}.
 
 (* ---------- UTF-8 ---------- *)
